@@ -463,8 +463,9 @@ def run(ctx):
     from .shared import rule_config_switch
     rule_config_switch(ctx, r7, "use_spec_hashes", "get_spec_hashes chooses between the file-backed and the no-op hash store")
     # "unchanged since it was last submitted": the record made at submission must survive however that invocation ended
-    from .persist import rule_exit_persists
+    from .persist import rule_exit_persists, rule_close_writes
     rule_exit_persists(ctx, r7, ("spec hashes",))
+    rule_close_writes(ctx, r7, ("spec hashes",))
     # status mapping: completed <=> not should_run for UNKNOWN/COMPLETED backend states with no pending deps comes from the C02 table
     r8 = ctx.rule("R8", "no job / finished job and no pending dependency: shown completed and not submitted iff should_run is False")
     from .schedtable import rule_decision_table
